@@ -86,7 +86,14 @@ func c16All(maxN, nk, nv int) []c16Dict {
 }
 
 // c16Render builds the Dict with fresh objects and renders `var x = T{dict}` raw.
-func c16Render(d c16Dict, ctl *env.Controller) jh.Outcome {
+func c16Render(d c16Dict, ctl *env.Controller) jh.Outcome { return c16RenderVariant(d, ctl, 0) }
+
+// c16Variants: 0 = the Dict alone in a fresh File; 1 = the qualified paths were made anonymous
+// imports before; 2 = another Dict comes first in the same File and the File is rendered twice
+// (the second output is judged).
+const c16Variants = 3
+
+func c16RenderVariant(d c16Dict, ctl *env.Controller, variant int) jh.Outcome {
 	dict := jen.Dict{}
 	for _, p := range d.Pairs {
 		k := c16Keys[p[0]].make()
@@ -97,8 +104,23 @@ func c16Render(d c16Dict, ctl *env.Controller) jh.Outcome {
 	}
 	f := jen.NewFile("p")
 	f.NoFormat = true
+	switch variant {
+	case 1:
+		f.Anon("a/f", "b/f", "c/f")
+	case 2:
+		k1, k2 := jen.Lit("p"), jen.Lit("q")
+		if ctl != nil {
+			ctl.Key(k1)
+			ctl.Key(k2)
+		}
+		f.Var().Id("y").Op("=").Id("U").Values(jen.Dict{k1: jen.Lit(0), k2: jen.Id("T0")})
+	}
 	f.Var().Id("x").Op("=").Id("T").Values(dict)
-	return jh.RenderFile(f)
+	o := jh.RenderFile(f)
+	if variant == 2 {
+		o = jh.RenderFile(f)
+	}
+	return o
 }
 
 func stripSpace(s string) string {
@@ -124,6 +146,9 @@ func c16Judge(d c16Dict, o jh.Outcome) string {
 		p, _ := strconv.Unquote(im.Path.Value)
 		if im.Name == nil {
 			return fmt.Sprintf("import %q without alias", p)
+		}
+		if im.Name.Name == "_" {
+			continue // anonymous import that was never referenced
 		}
 		names[p] = im.Name.Name
 	}
@@ -198,9 +223,10 @@ type c16Result struct {
 }
 
 type c16Case struct {
-	Dict   c16Dict `json:"dict"`
-	Vector []int   `json:"vector"`
-	Desc   string  `json:"description"`
+	Variant int     `json:"file_variant"`
+	Dict    c16Dict `json:"dict"`
+	Vector  []int   `json:"vector"`
+	Desc    string  `json:"description"`
 }
 
 func c16Space(tier ev.Tier) []c16Dict {
@@ -227,51 +253,58 @@ func c16Explore(tier ev.Tier, shard, n int) c16Result {
 			continue
 		}
 		res.Dicts++
-		outputs := map[string][]int{}
-		var firstBad string
-		st := explore.Explore(explore.Options{MaxDev: dev, Workers: 1}, func(c *explore.Ctx) {
-			ctl := env.NewController(func(site string, n int) []int {
-				perms, _ := c07Perms(n)
-				return perms[c.Choose(len(perms))]
-			})
-			remove := env.Install(ctl)
-			o := c16Render(d, ctl)
-			remove()
-			res.RangeExecs += int64(ctl.Ranges)
-			if c.Devs > 0 {
-				res.Deviating++
-			}
-			if _, ok := outputs[o.Key()]; !ok {
-				outputs[o.Key()] = c.Vector()
-				if msg := c16Judge(d, o); msg != "" && firstBad == "" {
-					firstBad = msg
-					if len(res.Violations) < 20 {
-						desc := fmt.Sprintf("%s under map-order vector %v", d, c.Vector())
-						res.Violations = append(res.Violations, ev.Violation{Signature: "c16:" + problemKind(msg), What: desc + ": " + msg,
-							Case: ev.JSON(c16Case{Dict: d, Vector: c.Vector(), Desc: desc}), Detail: msg})
+		nv := c16Variants
+		if tier != ev.Thorough && len(d.Pairs) > 3 {
+			nv = 1 // quick: the file variants only for Dicts of up to 3 pairs
+		}
+		for variant := 0; variant < nv; variant++ {
+			variant := variant
+			outputs := map[string][]int{}
+			var firstBad string
+			st := explore.Explore(explore.Options{MaxDev: dev, Workers: 1}, func(c *explore.Ctx) {
+				ctl := env.NewController(func(site string, n int) []int {
+					perms, _ := c07Perms(n)
+					return perms[c.Choose(len(perms))]
+				})
+				remove := env.Install(ctl)
+				o := c16RenderVariant(d, ctl, variant)
+				remove()
+				res.RangeExecs += int64(ctl.Ranges)
+				if c.Devs > 0 {
+					res.Deviating++
+				}
+				if _, ok := outputs[o.Key()]; !ok {
+					outputs[o.Key()] = c.Vector()
+					if msg := c16Judge(d, o); msg != "" && firstBad == "" {
+						firstBad = msg
+						if len(res.Violations) < 20 {
+							desc := fmt.Sprintf("%s (file variant %d) under map-order vector %v", d, variant, c.Vector())
+							res.Violations = append(res.Violations, ev.Violation{Signature: "c16:" + problemKind(msg), What: desc + ": " + msg,
+								Case: ev.JSON(c16Case{Dict: d, Vector: c.Vector(), Variant: variant, Desc: desc}), Detail: msg})
+						}
 					}
 				}
-			}
-		})
-		res.Executions += st.Executions
-		if len(outputs) > 1 && len(res.Violations) < 40 {
-			var vs []string
-			var vec []int
-			for k, v := range outputs {
-				vs = append(vs, fmt.Sprintf("%v -> %s", v, jh.Short(k, 300)))
-				if len(v) > len(vec) {
-					vec = v
+			})
+			res.Executions += st.Executions
+			if len(outputs) > 1 && len(res.Violations) < 40 {
+				var vs []string
+				var vec []int
+				for k, v := range outputs {
+					vs = append(vs, fmt.Sprintf("%v -> %s", v, jh.Short(k, 300)))
+					if len(v) > len(vec) {
+						vec = v
+					}
 				}
+				sort.Strings(vs)
+				desc := fmt.Sprintf("%s (file variant %d) has %d different renderings depending on map iteration order", d, variant, len(outputs))
+				res.Violations = append(res.Violations, ev.Violation{Signature: "c16:order-dependent", What: desc,
+					Case: ev.JSON(c16Case{Dict: d, Vector: vec, Variant: variant, Desc: desc}), Detail: strings.Join(vs, "\n")})
 			}
-			sort.Strings(vs)
-			desc := fmt.Sprintf("%s has %d different renderings depending on map iteration order", d, len(outputs))
-			res.Violations = append(res.Violations, ev.Violation{Signature: "c16:order-dependent", What: desc,
-				Case: ev.JSON(c16Case{Dict: d, Vector: vec, Desc: desc}), Detail: strings.Join(vs, "\n")})
+			if variant == 0 && len(d.Pairs) >= 3 && len(res.Samples) < 2 && i%7 == 0 {
+				res.Samples = append(res.Samples, map[string]any{"dict": d.String(), "executions": st.Executions, "raw_output": c16Render(d, nil).Out})
+			}
 		}
 		res.Outcomes[fmt.Sprintf("pairs=%d", len(d.Pairs))]++
-		if len(d.Pairs) >= 3 && len(res.Samples) < 2 && i%7 == 0 {
-			res.Samples = append(res.Samples, map[string]any{"dict": d.String(), "executions": st.Executions, "raw_output": c16Render(d, nil).Out})
-		}
 	}
 	return res
 }
@@ -294,7 +327,7 @@ func runC16(r *ev.Recorder) {
 		vnames = append(vnames, v.name)
 	}
 	r.Rule = fmt.Sprintf("every multiset of pairs over key kinds %v and value kinds %v (quick: <= 3 pairs over all 9x6 kinds, 4 pairs over the first 7x4; thorough: <= 4 over all, 5 over 6x3), each key a fresh object (so keys with equal text are distinct map keys), "+
-		"rendered raw as `var x = T{...}` under EVERY map iteration order of every dynamic range execution (instrumented build; all n! permutations, deviation bound 1 quick / 2 thorough). "+
+		"rendered raw as `var x = T{...}` - alone in a fresh File, after the qualified paths were made anonymous imports, and after another Dict in the same File with the File rendered twice - under EVERY map iteration order of every dynamic range execution (instrumented build; all n! permutations, deviation bound 1 quick / 2 thorough). "+
 		"Oracle on the parsed raw output: the literal's key:value pairs are exactly the multiset of non-null pairs (qualified names resolved through the import block, not through jennifer), "+
 		"ordered by the raw rendered key text, one pair inline and several one per line; and one outcome per Dict over all orders. "+
 		"states = executions, transitions = dynamic map-range executions answered; distinct_nontrivial = executions with a deviating order (distinct by construction)", knames, vnames)
@@ -365,7 +398,7 @@ func replayC16(raw json.RawMessage) (bool, string) {
 		})
 		remove := env.Install(ctl)
 		defer remove()
-		return c16Render(c.Dict, ctl)
+		return c16RenderVariant(c.Dict, ctl, c.Variant)
 	}
 	o, canon := run(c.Vector), run(nil)
 	msg := c16Judge(c.Dict, o)
